@@ -139,5 +139,6 @@ impl Prop for Differential {
 pub fn run(ctx: &mut Ctx) {
     ctx.assume("reference interpreter implements DESIGN.md appendix A (documented semantics); undocumented evaluation orders are avoided by construction");
     ctx.assume("programs are well-typed by construction; a rejected program is reported (generator bug or compiler defect)");
+    ctx.prop(&crate::g::srccase::SrcProp { name: "program" });
     ctx.prop(&Differential);
 }
